@@ -319,8 +319,9 @@ class Ctx:
             self.known_hits[fid] = self.known_hits.get(fid, 0) + 1
             if fid not in self._printed_known:
                 self._printed_known.add(fid)
-                print('KNOWN-FINDING: property=%s %s: %s' % (self.prop_id, fid, k.get('what', '')))
-                sys.stdout.flush()
+                # sys.__stdout__: a check may have silenced sys.stdout around noisy library calls
+                print('KNOWN-FINDING: property=%s %s: %s' % (self.prop_id, fid, k.get('what', '')), file=sys.__stdout__)
+                sys.__stdout__.flush()
             return False
         self.violations.append(record)
         if len(self.violations) <= 20:
@@ -333,10 +334,10 @@ class Ctx:
             with open(path, 'w') as f:
                 json.dump(record, f, indent=1, default=str)
             tail = ' no-failing-input-found' if record.get('no_failing_input') else ''
-            print('VIOLATION property=%s replay=%s%s' % (self.prop_id, path, tail))
+            print('VIOLATION property=%s replay=%s%s' % (self.prop_id, path, tail), file=sys.__stdout__)
             if summary:
-                print('  ' + summary)
-            sys.stdout.flush()
+                print('  ' + summary, file=sys.__stdout__)
+            sys.__stdout__.flush()
         return True
 
     def compare(self, case, impl_out, model_out, kind='model-mismatch', holds=None, extra=None):
